@@ -1,3 +1,8 @@
 // ===== prelude/entry_imports.rs — names the public entry points' where-clauses use (unit U23) =====
 use std::future::Future;
 use std::fmt::Debug;
+
+/// the opaque stream type returned by `FnGraph::stream_internal` (`impl Stream<Item = FnRef<'f, F>> + 'f`)
+#[verifier::external_body]
+#[verifier::reject_recursive_types(F)]
+pub struct StreamInternal<'f, F> { _p: core::marker::PhantomData<&'f F> }
